@@ -63,6 +63,8 @@ def mle_case(draw, n_max=6, with_container=False, with_competitor=False, with_ma
         case["eq"] = draw(st.sampled_from([True, True, False]))
         # integer counts may also arrive in a narrow or unsigned element type (applied when every value fits)
         case["cast"] = draw(st.sampled_from([None, None, "uint8", "uint16", "uint32", "uint64", "int8", "int16", "float32"]))
+        # counts may also arrive as numpy.matrix (what sparse.todense() and spmatrix + ndarray return)
+        case["as_npmatrix"] = draw(st.integers(0, 5)) == 0
     if with_competitor:
         case["G"] = draw(st.lists(st.floats(-1.0, 1.0, allow_nan=False, width=32), min_size=n * n, max_size=n * n))
         case["eps"] = draw(st.sampled_from([1e-3, 1e-2, 0.3, 2.0]))
@@ -165,13 +167,16 @@ def run_terminates_builder(case):
     if py_warned:
         raise Skip("builders.mle would need up to 1e5 pure-Python sweeps")
     x = R.to_container(A, case["container"])
+    as_matrix = bool(case.get("as_npmatrix"))
+    if as_matrix:
+        x = np.matrix(A)
     with warnings.catch_warnings(record=True) as w:
         warnings.simplefilter("always")
         C_out, T_raw, pi_raw = builders.mle(x, calculate_eq_probs=case["eq"])
-    T = R.to_dense(T_raw).astype(float)
-    require(type(T_raw) is type(x), "builders.mle: T not returned in the container passed in", got=type(T_raw).__name__,
-            want=type(x).__name__)
-    require(np.array_equal(R.to_dense(C_out), A), "builders.mle: returned counts differ from the input")
+    T = np.asarray(R.to_dense(T_raw)).astype(float)
+    require(as_matrix or type(T_raw) is type(x), "builders.mle: T not returned in the container passed in",
+            got=type(T_raw).__name__, want=type(x).__name__)
+    require(np.array_equal(np.asarray(R.to_dense(C_out)), A), "builders.mle: returned counts differ from the input")
     warned = any("converge" in str(wi.message).lower() for wi in w)
     if case["eq"]:
         require(pi_raw is not None, "populations requested but None returned")
@@ -184,7 +189,8 @@ def run_terminates_builder(case):
     require(Tpy is not None, "_prinz_mle_py failed on the dense counts although builders.mle returned")
     require(np.max(np.abs(T - Tpy)) <= 1e-12, "builders.mle(container) differs from the estimator on the dense counts",
             got=T.tolist(), want=Tpy.tolist())
-    return info(case, ["eq=%s" % case["eq"], "warned=%s" % warned, "element_type=%s" % (cast or str(A.dtype))])
+    return info(case, ["eq=%s" % case["eq"], "warned=%s" % warned, "element_type=%s" % (cast or str(A.dtype)),
+                       "np_matrix=%s" % as_matrix])
 
 
 def run_terminates_impls(case):
